@@ -636,6 +636,7 @@ impl InstrFormat for InstrFormat07 {
     }
 
     fn write_instr(&self, f: &mut BinWriter, emitter: &dyn Emitter, instr: &RawInstr) -> WriteResult {
+        llir::reject_terminal_opcode(emitter, instr)?;
         f.write_u16(instr.opcode)?;
         f.write_u16(llir::fit_header_field(emitter, instr, "size", self.instr_size(instr) as i64)?)?;
         f.write_i16(llir::fit_header_field(emitter, instr, "time", instr.time as i64)?)?;
